@@ -137,10 +137,12 @@ theorem pkgsOfGo_eq (secs : List Sec) : pkgsOfGo secs = some (pkgsOf secs) := by
 theorem parse_eq (bytes : List Char) :
     parse bytes = match gemSections (scan bytes).1 none [] with
       | none => .err
-      | some secs => .ok (pkgsOf secs) := by
+      | some secs => if (scan bytes).2 then .err else .ok (pkgsOf secs) := by
   unfold parse
   simp only [pkgsOfGo_eq]
-  cases gemSections (scan bytes).1 none [] <;> rfl
+  cases gemSections (scan bytes).1 none [] with
+  | none => rfl
+  | some secs => cases (scan bytes).2 <;> rfl
 
 end Gemfile
 namespace Dpkg
